@@ -28,15 +28,29 @@ type oracle struct {
 	r        *ipamkv.Runner
 	// an AssignIP had its block write conflict after it had incremented the handle:
 	// the code retries without taking the increment back (known defect)
-	assignRetry bool
+	assignRetry map[[2]int]bool
+	// a ReleaseIPs of more than two addresses (handles pre-fetched with List) released addresses
+	// of this (handle, block): its decrementHandle works on the pre-fetched, possibly stale object
+	prefetchRel map[[2]int]bool
 }
 
 func (o *oracle) fail(sig, desc string, info map[string]any) {
-	if o.r.StaleDelete && strings.HasPrefix(sig, "handle-") {
-		// the handle accounting of this case went through releaseByHandle's
-		// "block already deleted, decrement anyway" path (known defect)
+	// known / repaired causes are told apart per (handle, block): only a violation about a pair
+	// whose accounting went through that very path gets the suffix
+	pair := [2]int{-1, -1}
+	if h, ok := info["handle"].(int); ok {
+		if b, ok := info["block"].(int); ok {
+			pair = [2]int{h, b}
+		}
+	}
+	if o.r.StalePairs[pair] && strings.HasPrefix(sig, "handle-") {
+		// releaseByHandle's "block already deleted, decrement anyway" path (known defect)
 		sig += "-after-stale-delete"
-	} else if o.assignRetry && sig == "handle-ne-block-quiescent" {
+	} else if o.prefetchRel[pair] && sig == "handle-ne-block-quiescent" {
+		// ReleaseIPs decremented (or failed to) through a pre-fetched handle object (known defect)
+		sig += "-after-release-prefetch"
+	} else if o.assignRetry[pair] && sig == "handle-ne-block-quiescent" {
+		// AssignIP retried after a conflict (over-count repaired in 2a2a7ee: regression guard)
 		sig += "-after-assignip-retry"
 	}
 	info["replay_ops"] = append([]string(nil), o.r.Cmds...)
@@ -47,7 +61,22 @@ func (o *oracle) onStep(r *ipamkv.Runner, st *ipamkv.Step, ctx *ipamkv.ThreadCtx
 	e := r.Env
 	if _, isBlk := st.Key.(model.BlockKey); isBlk && ctx != nil && ctx.Op == "assignip" && ctx.Handle != 0 &&
 		st.Verb == ipamkv.VUpdate && st.Outcome == ipamkv.OConflict {
-		o.assignRetry = true
+		if bid, ok := e.BlockOf[model.IPNetFromPrefix(st.Key.(model.BlockKey).CIDR).String()]; ok {
+			o.assignRetry[[2]int{ctx.Handle, bid}] = true
+		}
+	}
+	if bk, ok := st.Key.(model.BlockKey); ok && st.Eff.Changed && st.Eff.Before != nil && ctx != nil && ctx.Op == "releaseips" {
+		bid := e.BlockOf[model.IPNetFromPrefix(bk.CIDR).String()]
+		if len(ctx.ReqOrds[bid]) > 2 {
+			before := e.AbsBlockOf(*st.Eff.Before)
+			for _, ord := range ctx.ReqOrds[bid] {
+				if ord < len(before.Slots) && strings.HasPrefix(before.Slots[ord], "L") {
+					hid := 0
+					fmt.Sscanf(before.Slots[ord], "L%d", &hid)
+					o.prefetchRel[[2]int{hid, bid}] = true
+				}
+			}
+		}
 	}
 	if st.Eff.Changed {
 		if bk, ok := st.Key.(model.BlockKey); ok && st.Eff.After != nil {
@@ -314,7 +343,8 @@ func main() {
 		r := ipamkv.NewRunner(h)
 		o.r = r
 		o.recorded = map[int]map[[2]int]bool{}
-		o.assignRetry = false
+		o.assignRetry = map[[2]int]bool{}
+		o.prefetchRel = map[[2]int]bool{}
 		r.OnStep, r.OnEnd, r.OnQuiescent = o.onStep, o.onEnd, o.onQuiescent
 		return r
 	}
